@@ -253,36 +253,44 @@ def T9(m, R):
         if subj != f.own_params()[0]:
             problems.append('matches %s, not the string-format part' % subj)
         if blk is not None and not problems:
+            # roles by data flow: what reaches the width / fillchar / extend_formatting arguments of the pad call, locals written as what they stand for
+            from ..inline import _subst as subst_once
+            from ..shapes import bind_call
+            env_ = {}
             for n in ast.walk(blk):
-                uses = []
-                role = None
-                if isinstance(n, ast.Assign) and isinstance(n.targets[0], ast.Name):
-                    uses = _group_uses(n.value, var)
-                    tv = norm(n.value)
-                    if uses and tv == '%s.group(%s)' % (var, uses[0][1]):
-                        role = 'WIDTH'      # the only plain copy of a group is the width
-                    elif uses and (' or ' in tv or 'not ' in tv or '==' in tv):
-                        role = 'SIGN'
-                elif isinstance(n, ast.Call) and call_name(n) in ('ljust', 'rjust', 'center'):
-                    pm = m.fn('AnsiString.' + call_name(n))
-                    from ..shapes import bind_call
-                    bound, _ = bind_call(n, pm)
-                    fc = bound.get('fillchar')
-                    if fc is not None:
-                        uses = _group_uses(fc, var)
-                        role = 'FILL'
-                    wd = bound.get('width')
-                    if wd is not None:
-                        for _, g_ in _group_uses(wd, var):
-                            if roles.get(g_, ('?',))[0] != 'WIDTH':
-                                problems.append('the width passed to %s is taken from group %s (%s), the WIDTH group is %s' % (call_name(n), g_, roles.get(g_, ('?',))[0], by_role.get('WIDTH')))
-                    want_method = {'<': 'ljust', '>': 'rjust', '^': 'center'}[ch]
-                    if call_name(n) != want_method:
-                        problems.append("alignment '%s' pads with %s, expected %s" % (ch, call_name(n), want_method))
-                if role and uses:
-                    for _, g in uses:
-                        if roles.get(g, ('?',))[0] != role:
-                            problems.append('%s uses group %s (%s) where the %s group %s is needed' % (short(n), g, roles.get(g, ('?',))[0], role, by_role.get(role)))
+                if isinstance(n, ast.Assign) and len(n.targets) == 1 and isinstance(n.targets[0], ast.Name):
+                    env_.setdefault(n.targets[0].id, n.value)
+
+            def expand(e_):
+                for _ in range(4):
+                    e2 = subst_once(e_, env_)
+                    if norm(e2) == norm(e_):
+                        break
+                    e_ = e2
+                return e_
+            pads = [n for n in ast.walk(blk) if isinstance(n, ast.Call) and call_name(n) in ('ljust', 'rjust', 'center')]
+            if not pads:
+                R.undecided(f, st, "no pad call in the block of the alignment regex '%s'" % ch, construct=cons)
+                continue
+            for n in pads:
+                pm = m.fn('AnsiString.' + call_name(n))
+                bound, _ = bind_call(n, pm)
+                for pname, role in (('width', 'WIDTH'), ('fillchar', 'FILL'), ('extend_formatting', 'SIGN')):
+                    arg = bound.get(pname)
+                    if arg is None:
+                        if role != 'FILL' or by_role.get('FILL') is None:
+                            continue
+                        problems.append('no fill character is passed to %s' % call_name(n))
+                        continue
+                    for _, g_ in _group_uses(expand(arg), var):
+                        if roles.get(g_, ('?',))[0] != role:
+                            problems.append('the %s passed to %s is taken from group %s (%s), the %s group is %s' % (
+                                pname, call_name(n), g_, roles.get(g_, ('?',))[0], role, by_role.get(role)))
+                    if role in ('WIDTH', 'FILL') and not _group_uses(expand(arg), var):
+                        problems.append('the %s passed to %s (%s) does not come from the matched spec' % (pname, call_name(n), short(arg)))
+                want_method = {'<': 'ljust', '>': 'rjust', '^': 'center'}[ch]
+                if call_name(n) != want_method:
+                    problems.append("alignment '%s' pads with %s, expected %s" % (ch, call_name(n), want_method))
         elif blk is None:
             R.undecided(f, st, "no `if match:` block follows the alignment regex '%s': how its groups are used is not recognised" % ch, construct=cons)
             continue
